@@ -93,10 +93,10 @@ def fold(c, t, out):
                 raise tlcmod.TlcError("design-level violation in %s: %s %s\n%s" % (
                     cfg, res.invariant_violated or res.property_violated, res.error_lines[:3], res.trace_text[:3000]))
         else:
-            if res.invariant_violated != expect:
+            if res.invariant_violated not in (expect if isinstance(expect, (tuple, list)) else (expect,)):
                 raise tlcmod.TlcError("%s was expected to violate %s without its assumption (anti-vacuity of the clause); got %s" % (
                     cfg, expect, res.invariant_violated or res.error_lines[:2] or "no violation"))
-            c.extra.setdefault("corner_configs", {})[cfg] = "violates %s at depth %d (design in which rules are replaced only when the id changes)" % (expect, res.depth)
+            c.extra.setdefault("corner_configs", {})[cfg] = "violates %s at depth %d (the design variant this configuration switches on)" % (res.invariant_violated, res.depth)
 
 
 def make_scripts(c):
